@@ -249,23 +249,28 @@ def make_user(cfg: Any) -> Any:
         kw["detailed_validation"] = cfg["dv"]
     if cfg.get("fek"):
         kw["forbid_extra_keys"] = True
+    if cfg.get("x") == "oid":
+        kw["omit_if_default"] = True
+    elif cfg.get("x") == "pac":
+        kw["prefer_attrib_converters"] = True
     return Counting(**kw)
 
 
-def cfg_of(cfg: Any) -> Tuple[bool, bool]:
-    """(detailed_validation, forbid_extra_keys) of a converter configuration (cattrs default dv=True)."""
+def cfg_of(cfg: Any) -> Tuple[bool, bool, str]:
+    """(detailed_validation, forbid_extra_keys, other option) of a converter configuration (cattrs
+    default dv=True); other option: '-' | 'oid' (omit_if_default) | 'pac' (prefer_attrib_converters)."""
     if not isinstance(cfg, dict):
         cfg = {"dv": cfg, "fek": False}
-    return (True if cfg.get("dv") is None else bool(cfg["dv"]), bool(cfg.get("fek")))
+    return (True if cfg.get("dv") is None else bool(cfg["dv"]), bool(cfg.get("fek")), cfg.get("x") or "-")
 
 
-def gkey(custom: Optional[str], dv: bool, fek: bool) -> str:
-    return f"{custom or 'plain'}|dv={int(dv)}|fek={int(fek)}"
+def gkey(custom: Optional[str], dv: bool, fek: bool, x: str = "-") -> str:
+    return f"{custom or 'plain'}|dv={int(dv)}|fek={int(fek)}|x={x}"
 
 
 def all_golden_keys() -> List[str]:
     customs = [None] + [f"{w}:{v}" for w in ("pre", "post") for v in CUSTOM_VARIANTS]
-    return [gkey(c, dv, fek) for c in customs for dv in (True, False) for fek in (False, True)]
+    return [gkey(c, dv, fek) for c in customs for dv in (True, False) for fek in (False, True)] + [gkey(None, True, False, "oid"), gkey(None, True, False, "pac")]
 
 
 def compute_golden_key(key: str) -> Dict[str, Any]:
@@ -273,12 +278,12 @@ def compute_golden_key(key: str) -> Dict[str, Any]:
     plain: fresh get_converter() (default configuration) or a user converter with the given options;
     pre:V  user converter customised with variant V before get_converter; post:V customised after."""
     conv = Z["conv"]
-    custom, dvs, feks = key.split("|")
-    dv, fek = dvs == "dv=1", feks == "fek=1"
-    if dv and not fek and custom == "plain":
+    custom, dvs, feks, xs = key.split("|")
+    dv, fek, x = dvs == "dv=1", feks == "fek=1", xs[2:]
+    if dv and not fek and x == "-" and custom == "plain":
         c = conv.get_converter()
     else:
-        base = make_user({"dv": dv, "fek": fek})
+        base = make_user({"dv": dv, "fek": fek, "x": None if x == "-" else x})
         if custom.startswith("pre:"):
             customise(base, custom[4:])
         c = conv.get_converter(base)
@@ -292,7 +297,7 @@ def golden_task(key: str) -> Tuple[str, Dict[str, Any]]:
 
 
 def needed_keys(run: Dict[str, Any]) -> List[str]:
-    cfgs = {(True, False)}
+    cfgs = {(True, False, "-")}
     customs: set = {None}
     for i, c in enumerate(run.get("shared_dv", [])):
         cfgs.add(cfg_of(c))
@@ -305,7 +310,7 @@ def needed_keys(run: Dict[str, Any]) -> List[str]:
                 cfgs.add(cfg_of(op[3]))
             elif op[0] == "CUSTOM":
                 customs.add(f"post:{op[2] if len(op) > 2 else 'position'}")
-    return sorted(gkey(c, dv, fek) for c in customs for dv, fek in cfgs)
+    return sorted(gkey(c, dv, fek, x) for c in customs for dv, fek, x in cfgs)
 
 
 def golden_for(keys: List[str]) -> Dict[str, Any]:
@@ -360,7 +365,12 @@ def gen_run(run_seed: int, tier: str) -> Dict[str, Any]:
         n_shared = r_ops.choice([1, 1, 2])
     def rand_cfg() -> Any:
         dv = r_ops.choice([None, True, False])
-        return {"dv": dv, "fek": True} if r_ops.random() < 0.2 else dv
+        y = r_ops.random()
+        if y < 0.2:
+            return {"dv": dv, "fek": True}
+        if y < 0.28:
+            return {"dv": None, "fek": False, "x": r_ops.choice(["oid", "pac"])}
+        return dv
 
     shared_dv = [rand_cfg() for _ in range(n_shared)]
     shared_custom = [r_ops.choice(CUSTOM_VARIANTS) if r_ops.random() < 0.25 else None for _ in range(n_shared)]
@@ -533,7 +543,7 @@ def execute(run: Dict[str, Any], golden: Dict[str, Any]) -> Dict[str, Any]:
     # model: identity -> customisation (None | 'pre:V' | 'post:V') and configuration (dv, fek)
     mode: Dict[int, Optional[str]] = {}
     shared: List[Any] = []
-    cfgs: Dict[int, Tuple[bool, bool]] = {}
+    cfgs: Dict[int, Tuple[bool, bool, str]] = {}
     for i, dv in enumerate(run["shared_dv"]):
         c = make_user(dv)
         c.sim_tag = f"shared{i}"
@@ -556,12 +566,12 @@ def execute(run: Dict[str, Any], golden: Dict[str, Any]) -> Dict[str, Any]:
         cfgs.pop(id(c), None)
 
     def gold(c: Any) -> Dict[str, Any]:
-        dv_, fek_ = cfgs.get(id(c), (True, False))
-        return golden[gkey(mode.get(id(c)), dv_, fek_)]
+        dv_, fek_, x_ = cfgs.get(id(c), (True, False, "-"))
+        return golden[gkey(mode.get(id(c)), dv_, fek_, x_)]
 
     def kind_of(c: Any) -> str:
-        dv_, fek_ = cfgs.get(id(c), (True, False))
-        return gkey(mode.get(id(c)), dv_, fek_)
+        dv_, fek_, x_ = cfgs.get(id(c), (True, False, "-"))
+        return gkey(mode.get(id(c)), dv_, fek_, x_)
     keep_alive: List[Any] = list(shared)
     registry: List[Any] = []  # converters in order of (completed) creation, for the final sweep
 
@@ -667,7 +677,7 @@ def execute(run: Dict[str, Any], golden: Dict[str, Any]) -> Dict[str, Any]:
                     if how == "fresh":
                         c = conv_mod.get_converter()
                         mode.setdefault(id(c), None)
-                        cfgs.setdefault(id(c), (True, False))
+                        cfgs.setdefault(id(c), (True, False, "-"))
                     elif how == "user":
                         base = make_user(arg)
                         if len(op) > 4:
@@ -694,7 +704,7 @@ def execute(run: Dict[str, Any], golden: Dict[str, Any]) -> Dict[str, Any]:
                         mode.setdefault(id(base), None)
                         if c is not base:
                             mode.setdefault(id(c), mode[id(base)])
-                            cfgs.setdefault(id(c), cfgs.get(id(base), (True, False)))
+                            cfgs.setdefault(id(c), cfgs.get(id(base), (True, False, "-")))
                     keep_alive.append(c)
                     registry.append(c)
                     slots[s] = c
@@ -706,7 +716,7 @@ def execute(run: Dict[str, Any], golden: Dict[str, Any]) -> Dict[str, Any]:
                     keep_alive.append(c2)
                     if c2 is not c:
                         mode.setdefault(id(c2), mode.get(id(c)))
-                        cfgs.setdefault(id(c2), cfgs.get(id(c), (True, False)))
+                        cfgs.setdefault(id(c2), cfgs.get(id(c), (True, False, "-")))
                     slots[op[1]] = c2
                     probes["reget"] += 1
                     outcome = ("got",)
@@ -731,7 +741,7 @@ def execute(run: Dict[str, Any], golden: Dict[str, Any]) -> Dict[str, Any]:
                         gc.collect()
                         probes["dropped_and_collected"] += 1
                     mode.setdefault(id(c), None)
-                    cfgs.setdefault(id(c), (True, False))
+                    cfgs.setdefault(id(c), (True, False, "-"))
                     registry.append(c)
                     slots[s] = c
                     if m >= 100:
@@ -1175,7 +1185,7 @@ def main(argv: List[str]) -> int:
         # detailed validation on/off must not change verdicts or values (exception types may differ)
         strip = lambda o: tuple(o[:1]) if o[0] == "err" else tuple(o)  # noqa: E731
         for k1 in keys:
-            if "|dv=1|" not in k1:
+            if "|dv=1|" not in k1 or k1.replace("|dv=1|", "|dv=0|") not in gold_all:
                 continue
             k0 = k1.replace("|dv=1|", "|dv=0|")
             for part, names in (("use", [b[0] for b in battery.STRUCT]), ("build", [b[0] for b in battery.BUILD])):
